@@ -177,6 +177,10 @@ pub fn check_chain(i: u64, rc: &mut RCase) -> Result<(), Failure> {
     let backwards = k % 2 == 1;
     k /= 2;
     let used = k % 2 == 1;
+    k /= 2;
+    // what the recursive type holds besides itself: a primitive, a field typed by the head of the alias chain, or
+    // a field of an undefined type (the type then never resolves)
+    let leaf = ["Int", "A0", "Missing"][k % 3];
     let mut defs: Vec<String> = (0..len).map(|j| format!("type A{} = A{};\n", j, j + 1)).collect();
     defs.push(match end {
         0 => format!("type A{} = Base;\n", len),
@@ -190,14 +194,21 @@ pub fn check_chain(i: u64, rc: &mut RCase) -> Result<(), Failure> {
     let mut src = String::from("party P;\ntype Base { x: Int, }\n");
     if fan > 0 {
         let fields: String = (0..fan).map(|f| format!(" f{}: Tree,", f)).collect();
-        src.push_str(&format!("type Tree {{{} leaf: Int, }}\n", fields));
+        src.push_str(&format!("type Tree {{{} leaf: {}, }}\n", fields, leaf));
+    }
+    // recorded: a recursive type that can never resolve is analysed again on every pass the alias chain needs, and
+    // every pass nests the previous one inside it (fan-out 2: time and memory double per link)
+    if leaf == "Missing" && fan >= 2 && len >= 12 && end <= 1 && !rc.strict && rc.kf.is_known(rc.property, "analyze_exponential:unresolvable_recursive_type_next_to_alias_chain") {
+        let _ = rc.tolerated("analyze_exponential:unresolvable_recursive_type_next_to_alias_chain");
+        rc.label("excluded:unresolvable_recursive_type_next_to_alias_chain");
+        return Ok(());
     }
     src.push_str(&defs.concat());
     if used {
         src.push_str("tx t(a: Int) {\n  output {\n    to: P,\n    amount: Ada(a),\n    datum: A0 { x: a, },\n  }\n}\n");
     }
     rc.label("definition_chains");
-    judge(&src, &format!("definition_chain:len={},fan={},end={},backwards={},used={}", len, fan, end, backwards, used), rc)
+    judge(&src, &format!("definition_chain:len={},fan={},end={},backwards={},used={},leaf={}", len, fan, end, backwards, used, leaf), rc)
 }
 
 pub fn check_nesting(kind: usize, depth: usize, rc: &mut RCase) -> Result<(), Failure> {
@@ -227,7 +238,7 @@ pub fn run(tier: Tier, seed: u64) -> Report {
     r.enumerate("nesting", 12 * 64, &|i, rc| check_nesting((i % 12) as usize, 1 + (i / 12) as usize, rc));
     let runs = (run_fragments().len() * RUN_LENGTHS.len() * RUN_SEPS.len() * 4) as u64;
     r.enumerate("repeated_fragments", runs, &|i, rc| check_run(i, rc));
-    r.enumerate("definition_chains", (CHAIN_LENGTHS.len() * 4 * 4 * 2 * 2) as u64, &|i, rc| check_chain(i, rc));
+    r.enumerate("definition_chains", (CHAIN_LENGTHS.len() * 4 * 4 * 2 * 2 * 3) as u64, &|i, rc| check_chain(i, rc));
     r.explore("grammar_derived", tier.pick(60_000, 2_000_000), 700, &|t, rc| check_grammar(t, rc));
     r.explore("token_mutation", tier.pick(60_000, 2_000_000), 500, &|t, rc| check_mutation(t, rc));
     r
